@@ -116,7 +116,7 @@ func formatValue(builder *OutputBuilder, value any) error {
 		return formatSlice(builder, typedValue, pgsql.Int8Array)
 
 	case string:
-		builder.Write("'", strings.ReplaceAll(typedValue, "'", "''"), "'")
+		builder.Write(formatStringLiteral(typedValue))
 
 	case bool:
 		builder.Write(strconv.FormatBool(typedValue))
@@ -134,6 +134,25 @@ func formatValue(builder *OutputBuilder, value any) error {
 	return nil
 }
 
+// pgxUnsafeRune is the Unicode replacement character. The named-argument rewriter of pgx (pgx.NamedArgs, which the
+// PostgreSQL driver applies to every statement that has parameters) scans the SQL text rune by rune and takes
+// U+FFFD for the end of its input: the remainder of the statement is silently dropped. The character is therefore
+// kept out of the SQL text and written as a Unicode escape instead.
+const pgxUnsafeRune = "\uFFFD"
+
+var (
+	escapeStringReplacer      = strings.NewReplacer("\\", "\\\\", "'", "''", pgxUnsafeRune, "\\uFFFD")
+	unicodeIdentifierReplacer = strings.NewReplacer("\\", "\\\\", "\"", "\"\"", pgxUnsafeRune, "\\FFFD")
+)
+
+func formatStringLiteral(value string) string {
+	if strings.Contains(value, pgxUnsafeRune) {
+		return "E'" + escapeStringReplacer.Replace(value) + "'"
+	}
+
+	return "'" + strings.ReplaceAll(value, "'", "''") + "'"
+}
+
 // formatIdentifier renders an identifier. Identifiers that originate from Cypher escaped symbolic names
 // (`some name`) are carried through translation in their backticked source form. A backtick is an operator
 // character to PostgreSQL, so the name is decoded and emitted as a double-quoted PostgreSQL identifier.
@@ -145,6 +164,11 @@ func formatIdentifier(identifier pgsql.Identifier) string {
 	}
 
 	name := strings.ReplaceAll(raw[1:len(raw)-1], "``", "`")
+
+	if strings.Contains(name, pgxUnsafeRune) {
+		return "U&\"" + unicodeIdentifierReplacer.Replace(name) + "\""
+	}
+
 	return "\"" + strings.ReplaceAll(name, "\"", "\"\"") + "\""
 }
 
